@@ -186,10 +186,13 @@ class AbstractResponderFunc():  # Not a real ABC.
     @permanent.setter
     def permanent(self, value):
         self._permanent = value
-        if value and self.enabled:
-            sac.CmdPeriod.remove(self.__on_cmd_period)
-        else:
-            sac.CmdPeriod.add(self.__on_cmd_period)
+        # Only enabled responders are registered in CmdPeriod, enable()
+        # and disable() check this property for the rest.
+        if self.enabled:
+            if value:
+                sac.CmdPeriod.remove(self.__on_cmd_period)
+            else:
+                sac.CmdPeriod.add(self.__on_cmd_period)
 
     def enable(self):
         '''Enable the responder to process incoming data.'''
